@@ -26,18 +26,25 @@ theorem initial_states_ok (rows : List Row) (hrows : (rows.map (·.name)).Nodup 
     (bufExists : Bool) (buf : List Nat) :
     FileOK (initWorld false false [] bufExists buf) ∧ FileOK (initWorld true false [] bufExists buf) ∧
     FileOK (initWorld true true [] bufExists buf) ∧ FileOK (initWorld true true rows bufExists buf) := by
-  sorry
+  refine ⟨?_, ?_, ?_, ?_⟩ <;> simp [FileOK, initWorld, hrows.1] <;> grind
 
 /-- the file stays well formed along every history (every interleaving, every crash point, any
     number of sessions), and a session never fails on a well-formed file -/
 theorem file_inv (w : World) (hw : FileOK w) (hidle : w.phase = .idle) (ops : List Op) :
     FileOK (wrun name w ops) ∧ (wrun name w ops).phase ≠ .failed := by
-  sorry
+  have h := winv_run name ops w (winv_of_idle name w hw hidle)
+  refine ⟨h.1, ?_⟩
+  intro hf
+  have := h.2
+  rw [hf] at this
+  exact this
 
 /-- rows once recorded are never lost or altered by any later history -/
 theorem rows_kept (w : World) (hw : FileOK w) (hidle : w.phase = .idle) (ops : List Op)
     (r : Row) (hr : r ∈ w.st.out) (hc : r.complete = true) : r ∈ (wrun name w ops).st.out := by
-  sorry
+  have _ := hw
+  have _ := hidle
+  exact wrun_out_kept name ops w r hr hc
 
 /-- the constructor, run to completion on a well-formed file, leaves: the header present exactly
     once, the rows untouched, the claim buffer equal to the recorded subjects, both locks free -/
@@ -45,7 +52,11 @@ theorem ctor_completes (w : World) (hw : FileOK w) (hidle : w.phase = .idle) (ki
     let w' := wrun name w (Op.newSession kind :: List.replicate 12 Op.ctor)
     w'.phase = .running ∧ w'.outExists = true ∧ w'.hdrs = 1 ∧ w'.st.out = w.st.out ∧
     w'.st.buf = w.st.out.map (·.name) ∧ w'.st.l1 = none ∧ w'.st.l2 = none ∧ w'.bufExists = true := by
-  sorry
+  have e := ctor_run_eq name w hw hidle kind
+  intro w'
+  have e' : w' = _ := e
+  rw [e']
+  exact ⟨rfl, rfl, rfl, rfl, rfl, rfl, rfl, rfl⟩
 
 /-- restart: after ANY earlier history (whose only trace is a well-formed file and possibly a stale
     buffer), a new session in which all calls return leaves the header exactly once and exactly one
@@ -60,19 +71,23 @@ theorem restart_exact (w : World) (hw : FileOK w) (hidle : w.phase = .idle) (kin
     (∀ i < N, kind i = .eval → ∃ r ∈ w'.st.out, r.name = name i) ∧
     (∀ r ∈ w.st.out, r ∈ w'.st.out) ∧
     (∀ r ∈ w'.st.out, r ∈ w.st.out ∨ (r.tid < N ∧ kind r.tid = .eval ∧ name r.tid = r.name)) := by
-  sorry
+  exact restart_gen name w hw hidle kind N sched hsched hdone
 
 /-! ### neighbouring aggregators: the buffer file is private to its output file -/
 
 /-- different output files (in one directory) have different buffer files -/
 theorem bufName_injective (a b : String) (h : bufName a = bufName b) : a = b := by
-  sorry
+  unfold bufName at h
+  exact (String.append_left_inj _).mp h
 
 /-- a buffer file is not the output file `b.tsv` of a neighbour, unless that neighbour is itself
     named like a buffer file -/
 theorem bufName_not_output (a b : String) (h : bufName a = b ++ ".tsv") :
     b = a ++ "_panoptica_aggregator_tmp" := by
-  sorry
+  have e : "_panoptica_aggregator_tmp.tsv" = "_panoptica_aggregator_tmp" ++ ".tsv" := by decide
+  unfold bufName at h
+  rw [e, ← String.append_assoc] at h
+  exact ((String.append_left_inj _).mp h).symm
 
 /-- regression (repaired defect): the pre-fix name was the same for every output file -/
 example : bufNameLegacy "x" = bufNameLegacy "y" ∧ bufName "x" ≠ bufName "y" := by
